@@ -359,7 +359,7 @@ def feed_from_json(j: dict) -> dict:
     return out
 
 
-def observe(args: dict, exposed: list, rng, sizes, max_inst, extra_feeds=(), fix_feed=None) -> dict:
+def observe(args: dict, exposed: list, rng, sizes, max_inst, extra_feeds=(), fix_feed=None, only_extra=False) -> dict:
     """`extra_feeds`: feeds to run before the generated ones (a replay's recorded input);
     `fix_feed(feed)`: lets a caller overwrite inputs whose values must be meaningful."""
     st = {"rejected": False, "runs": 0, "refused": 0, "checked": 0, "fails": []}
@@ -381,7 +381,7 @@ def observe(args: dict, exposed: list, rng, sizes, max_inst, extra_feeds=(), fix
         st["refused"] += 1
         st["load_error"] = f"{type(e).__name__}: {str(e)[:300]}"
         return st
-    generated = feeds_for(args, rng, sizes, max_inst)
+    generated = [] if only_extra else feeds_for(args, rng, sizes, max_inst)
     if fix_feed is not None:
         generated = [fix_feed(f) for f in generated]
     for feed in list(extra_feeds) + generated:
@@ -451,11 +451,13 @@ ARG_TYPES = [
 
 
 class Gen:
-    def __init__(self, seed: int, size: int):
+    def __init__(self, seed: int, size: int, module: Optional[str] = None):
         import spox.opset.ai.onnx.ml.v3 as ml
-        import spox.opset.ai.onnx.v17 as op
 
         self.rng = random.Random(seed)
+        # one opset module per program (the Loop/If/Scan constructors differ between them)
+        self.module = module or self.rng.choice(OPSET_MODULES)
+        op = opset_module(self.module)
         self.size = size
         self.op, self.ml = op, ml
         self.args: dict = {}
@@ -465,6 +467,8 @@ class Gen:
         self.text: list[str] = []
         self.body_exposed = 0
         self.seed = seed
+        self.defaults: dict = {}
+        self.overrides: dict = {}
 
     # -- helpers
     def note(self, opname: str, desc: str):
@@ -719,6 +723,28 @@ class Gen:
             self.add(o, "scan", f"scan({st.type}, {xs.type})[{j}]")
         return None
 
+    def do_default_arg(self):
+        """A defaulted argument (overridable initializer) feeding a shape-like input."""
+        try:
+            from spox._graph import arguments_dict
+        except Exception:  # noqa: BLE001
+            return None
+        op, rng = self.op, self.rng
+        v = self.pick(lambda v: self.rank(v) is not None and all(isinstance(d, int) and d > 0 for d in v.type.shape))
+        if v is None:
+            return None
+        n = int(np.prod(v.type.shape)) if v.type.shape else 1
+        name = f"dflt{len(self.args)}"
+        default = np.array([n], dtype=np.int64) if rng.random() < 0.5 else np.array([1, n], dtype=np.int64)
+        d = arguments_dict(**{name: default})[name]
+        self.args[name] = d
+        self.defaults[name] = default
+        self.overrides[name] = np.array([n, 1], dtype=np.int64) if default.shape == (2,) else np.array([n], dtype=np.int64)
+        y = op.reshape(v, d)
+        self.add(y, "default-arg", f"reshape({v.type}, defaulted {default.tolist()})")
+        w, k = self.unary(y, safe=True)
+        return self.add(w, k, f"{k}({y.type})")
+
     def do_inline(self):
         from spox import Tensor, argument, build, inline
 
@@ -729,7 +755,7 @@ class Gen:
         # the inlined model declares symbolic dims where the argument has non-constant ones
         shape = tuple(d if isinstance(d, int) else f"S{i}" for i, d in enumerate(v.type.shape))
         p = argument(Tensor(v.type.dtype, shape))
-        sub = Gen(rng.randrange(1 << 30), 0)
+        sub = Gen(rng.randrange(1 << 30), 0, module=self.module)
         q, k1 = sub.unary(p, safe=True)
         q2, k2 = sub.unary(q, safe=True)
         with warnings.catch_warnings():
@@ -814,6 +840,8 @@ class Gen:
                     self.do_inline()
                 elif r < 0.97:
                     self.do_scan()
+                elif r < 0.985:
+                    self.do_default_arg()
                 else:
                     self.do_function()
         return self
@@ -825,12 +853,152 @@ def run_program(case: dict, sizes, max_inst: int, extra_feeds=()) -> dict:
         g.build()
     except Exception as e:  # noqa: BLE001
         return {"build_failed": True, "error": f"{type(e).__name__}: {str(e)[:200]}", "fails": [], "refused": 0, "ops": g.ops}
-    st = observe(g.args, g.exposed, random.Random(case["seed"] ^ 0x5EED), sizes, max_inst, extra_feeds=extra_feeds)
+    turn = [0]
+
+    def fix_feed(feed: dict) -> dict:
+        # defaulted arguments: alternately leave them to their default and override them
+        turn[0] += 1
+        for name in g.defaults:
+            if turn[0] % 2:
+                feed.pop(name, None)
+            else:
+                feed[name] = g.overrides[name]
+        return feed
+
+    st = observe(g.args, g.exposed, random.Random(case["seed"] ^ 0x5EED), sizes, max_inst, extra_feeds=extra_feeds,
+                 fix_feed=fix_feed if g.defaults else None)
     return {
         "runs": st["runs"], "refused": st["refused"], "vars_checked": st["checked"], "fails": st["fails"], "ops": g.ops,
-        "body_vars_exposed": g.body_exposed, "text": "; ".join(g.text), "load_error": st.get("load_error"),
+        "body_vars_exposed": g.body_exposed, "text": f"[{g.module}] " + "; ".join(g.text), "load_error": st.get("load_error"),
         "runtime_disagreements": st.get("runtime_disagreements", 0), "disagreement_samples": st.get("disagreement_samples", []),
     }
+
+
+# ----------------------------------------------------------------------------- arguments with default values
+# A graph argument that carries a DEFAULT (model input + initializer of the same name) can be overridden
+# at run time, so nothing computed from its value may end up as a constant dim of a reported type.
+DEFAULT_CASES = [
+    {"op": "reshape", "x": [6], "default": [2, 3], "override": [3, 2]},
+    {"op": "reshape", "x": [6], "default": [6], "override": [1, 2, 3]},
+    {"op": "range", "x": [1], "default": 5, "override": 3},
+    {"op": "expand", "x": [1, 3], "default": [2, 3], "override": [4, 3]},
+    {"op": "tile", "x": [2, 3], "default": [1, 2], "override": [3, 1]},
+    {"op": "constant_of_shape", "x": [1], "default": [2, 2], "override": [3]},
+    {"op": "one_hot", "x": [4], "default": 3, "override": 5},
+    {"op": "reshape_then_ops", "x": [6], "default": [2, 3], "override": [3, 2]},
+]
+
+
+def run_default_case(case: dict, rng, sizes, max_inst: int, extra_feeds=()) -> dict:
+    import spox.opset.ai.onnx.v17 as op
+    from spox import argument
+
+    try:
+        from spox._graph import arguments_dict
+    except Exception as e:  # noqa: BLE001
+        return {"rejected": True, "error": f"arguments_dict not importable: {e}", "runs": 0, "refused": 0, "checked": 0, "fails": []}
+    try:
+        with warnings.catch_warnings():
+            warnings.simplefilter("ignore")
+            x = argument(L.ty_from_json({"e": "i64" if case["op"] == "one_hot" else "f32", "s": case["x"]}))
+            d = arguments_dict(d=np.array(case["default"], dtype=np.int64))["d"]
+            args = {"x": x, "d": d}
+            k = case["op"]
+            if k == "reshape":
+                outs = [op.reshape(x, d)]
+            elif k == "reshape_then_ops":
+                y = op.reshape(x, d)
+                outs = [y, op.transpose(y, perm=[1, 0]), op.concat([y, y], axis=0), op.reduce_sum(y, op.const(np.array([0], dtype=np.int64)), keepdims=0)]
+            elif k == "range":
+                outs = [op.range(op.const(np.array(0, dtype=np.int64)), d, op.const(np.array(1, dtype=np.int64)))]
+            elif k == "expand":
+                outs = [op.expand(x, d)]
+            elif k == "tile":
+                outs = [op.tile(x, d)]
+            elif k == "constant_of_shape":
+                outs = [op.constant_of_shape(d)]
+            elif k == "one_hot":
+                outs = [op.one_hot(x, d, op.const(np.array([0.0, 1.0], dtype=np.float32)))]
+            else:
+                raise ValueError(k)
+            outs = outs + [op.identity(o) for o in outs]
+    except Exception as e:  # noqa: BLE001
+        return {"rejected": True, "error": f"{type(e).__name__}: {str(e)[:200]}", "runs": 0, "refused": 0, "checked": 0, "fails": []}
+    xv = np.zeros(case["x"], dtype=np.int64 if case["op"] == "one_hot" else np.float32)
+    feeds = list(extra_feeds) + [
+        {"x": xv},  # the default is used
+        {"x": xv, "d": np.array(case["override"], dtype=np.int64)},  # the caller overrides it
+    ]
+    st = observe(args, outs, rng, sizes, max_inst, extra_feeds=feeds, only_extra=True)
+    for f in st["fails"]:
+        if "d" in f.get("feed", {}):
+            f["key"] = f["key"].rsplit(":", 1)[0] + ":constant-dim-from-overridable-default"
+    return st
+
+
+# ----------------------------------------------------------------------------- Loop families, every opset module
+OPSET_MODULES = ["v17", "v18", "v19", "v20", "v21"]
+LOOP_FAMILY = [
+    {"body": "identity", "x": ["N"]}, {"body": "identity", "x": [2, 3]},
+    {"body": "double", "x": ["N"]}, {"body": "double", "x": [2]},
+    {"body": "narrow", "x": ["N"]}, {"body": "narrow", "x": [None, "N"]},
+    {"body": "feedback", "x": [2]}, {"body": "feedback", "x": ["N"]},
+    {"body": "flatten_unknown_rank", "x": [2, 3]}, {"body": "flatten_unknown_rank", "x": ["N", 2]},
+    {"body": "fixed_shape", "x": ["N"]},
+]
+
+
+def opset_module(name: str):
+    import importlib
+
+    return importlib.import_module(f"spox.opset.ai.onnx.{name}")
+
+
+def run_loop_family(case: dict, rng, sizes, max_inst: int, extra_feeds=()) -> dict:
+    """One Loop of the family built with the constructors of opset module `case["module"]`; the trip
+    count is a model input and is fed 0, 1, 2 and 3."""
+    try:
+        op = opset_module(case["module"])
+    except Exception as e:  # noqa: BLE001
+        return {"rejected": True, "error": f"{type(e).__name__}: {e}", "runs": 0, "refused": 0, "checked": 0, "fails": []}
+    kind = case["body"]
+    try:
+        with warnings.catch_warnings():
+            warnings.simplefilter("ignore")
+            decl = {"x": L.ty_from_json({"e": "f32", "s": case["x"]}), "m": L.ty_from_json({"e": "i64", "s": []})}
+            if kind == "flatten_unknown_rank":
+                decl["shape__"] = L.ty_from_json({"e": "i64", "s": ["K"]})
+            args = make_args(decl)
+            x = args["x"]
+            flat = op.const(np.array([-1], dtype=np.int64))
+            if kind == "flatten_unknown_rank":
+                x0 = op.reshape(x, args["shape__"])  # rank-unknown initial value
+                init, body = [x0], (lambda i, c, v: [c, op.reshape(v, flat)])
+            elif kind == "identity":
+                init, body = [x], (lambda i, c, v: [c, op.identity(v), v])
+            elif kind == "double":
+                init, body = [x], (lambda i, c, v: [c, op.concat([v, v], axis=0)])
+            elif kind == "narrow":  # broadcasting against a constant narrows the unknown last dim to 3
+                init, body = [x], (lambda i, c, v: [c, op.add(v, op.const(np.ones((3,), dtype=np.float32)))])
+            elif kind == "feedback":
+                init, body = [x, x], (lambda i, c, a, b: [c, op.concat([a, a], axis=0), a])
+            elif kind == "fixed_shape":  # the result has a fixed shape whatever comes in
+                init, body = [x], (lambda i, c, v: [c, op.const(np.zeros((4,), dtype=np.float32))])
+            else:
+                raise ValueError(kind)
+            outs = list(op.loop(args["m"], v_initial=init, body=body))
+            outs = outs + [op.identity(o) for o in outs]
+    except Exception as e:  # noqa: BLE001
+        return {"rejected": True, "error": f"{type(e).__name__}: {str(e)[:200]}", "runs": 0, "refused": 0, "checked": 0, "fails": []}
+    feeds = []
+    for base in feeds_for({"x": args["x"]}, rng, [1, 3, 5] if kind in ("narrow",) else sizes, max_inst):
+        for m in (0, 1, 2, 3):
+            f = dict(base)
+            f["m"] = np.array(m, dtype=np.int64)
+            if "shape__" in args:
+                f["shape__"] = np.array(f["x"].shape, dtype=np.int64)
+            feeds.append(f)
+    return observe(args, outs, rng, sizes, max_inst, extra_feeds=list(extra_feeds) + feeds, only_extra=True)
 
 
 # ----------------------------------------------------------------------------- inline call forms
